@@ -38,6 +38,8 @@ func (s upStep) String() string {
 		return fmt.Sprintf("drop#%d", s.Cand)
 	case "conformant", "probeEarly":
 		return fmt.Sprintf("%s(%s)", s.Kind, s.Tr)
+	case "conformantLatePoll":
+		return fmt.Sprintf("conformantLatePoll(%s,+%v)", s.Tr, s.D)
 	case "toTimeout":
 		return fmt.Sprintf("toTimeout#%d(%+v)", s.Cand, s.D)
 	case "advance":
@@ -62,7 +64,7 @@ func genC08(rt *rapid.T, gates bool, knownProbe bool, col *Collector) upCase {
 		l := fmt.Sprintf("s%d", i)
 		kinds := []string{"open", "open", "open", "send", "clientMsg", "poll", "advance"}
 		if rapid.IntRange(0, 7).Draw(rt, l+".conf") == 0 {
-			kinds = append(kinds, "conformant")
+			kinds = append(kinds, "conformant", "conformantLatePoll")
 		}
 		if ncand > 0 {
 			kinds = append(kinds, "pkt", "pkt", "pkt", "pkt", "drop", "toTimeout")
@@ -98,8 +100,9 @@ func genC08(rt *rapid.T, gates bool, knownProbe bool, col *Collector) upCase {
 			st.Tr = rapid.SampledFrom(trs).Draw(rt, l+".tr")
 			st.Sid = rapid.SampledFrom([]string{"own", "own", "own", "own", "unknown", "closed"}).Draw(rt, l+".sid")
 			ncand++
-		case "conformant", "probeEarly":
+		case "conformant", "probeEarly", "conformantLatePoll":
 			st.Tr = rapid.SampledFrom(trs).Draw(rt, l+".tr")
+			st.D = time.Duration(rapid.SampledFrom([]int{0, 50, 100, 150, 250, 1000}).Draw(rt, l+".late")) * time.Millisecond
 			ncand++
 		case "pkt":
 			st.Cand = rapid.IntRange(0, ncand-1).Draw(rt, l+".cand")
@@ -367,9 +370,30 @@ func runC08(c upCase) (fail string, stats map[string]bool) {
 		Settle()
 	}
 
+	latePoll := time.Duration(-1)
 	conformant := func(tr string, early bool) string {
 		if uw.sessClosed {
 			return ""
+		}
+		late := latePoll
+		latePoll = -1
+		if late >= 0 && uw.cur == nil && uw.upgrading == nil {
+			// the client is between two polls when it probes: its next poll reaches the server only later
+			if pc.Poll != nil {
+				w.AppSend(uw.sr, msgT("answers the pending poll"), nil, false, 0)
+				uw.sentDown = append(uw.sentDown, msgT("answers the pending poll"))
+				Settle()
+				if f := uw.pumpDown(); f != "" {
+					return f
+				}
+			}
+			if pc.Poll != nil {
+				late = -1
+			} else {
+				stats["poll-arrives-after-the-probe"] = true
+			}
+		} else {
+			late = -1
 		}
 		var gp GatePoint
 		if early {
@@ -415,6 +439,10 @@ func runC08(c upCase) (fail string, stats map[string]bool) {
 		}
 		// wait for the pending poll to be released with a noop
 		before := len(pc.Recv)
+		if late >= 0 {
+			time.Sleep(late)
+			Settle()
+		}
 		uw.keepPolling()
 		for i := 0; i < 4 && pc.Poll != nil; i++ {
 			time.Sleep(100 * time.Millisecond)
@@ -465,6 +493,11 @@ func runC08(c upCase) (fail string, stats map[string]bool) {
 			}
 		case "probeEarly":
 			if f := conformant(st.Tr, true); f != "" {
+				return what + ": " + f, stats
+			}
+		case "conformantLatePoll":
+			latePoll = st.D
+			if f := conformant(st.Tr, false); f != "" {
 				return what + ": " + f, stats
 			}
 		case "pkt":
